@@ -1,5 +1,5 @@
 import Retro.Props.C02.Links
-import Retro.Props.C01
+import Retro.Props.C01.Persp
 import Retro.Props.C06
 
 namespace Retro.Props.C02
